@@ -44,7 +44,7 @@ def call(ctx, d, prior, script, md5s):
             raise ConnectionError('script exhausted')
         if r == 'e404':
             return (404, {}, b'')
-        return (200, {}, GOOD if r == 'good' else BAD)
+        return (200, {}, dict(good=GOOD, corrupt=BAD, trunc=GOOD[:1500], empty=b'')[r])
 
     def md5_cb(req):
         log.append('md5')
@@ -79,11 +79,11 @@ def call(ctx, d, prior, script, md5s):
 
 def run(ctx):
     ctx.rule = ('S->C: every terminal state of Download.tla (all data-URL scripts of length <= 3 '
-                'over {good, corrupt, 404} x checksum behaviour x prior file; stable and flaky '
+                'over {good, corrupt (other bytes / truncated / empty body), 404} x checksum behaviour x prior file; stable and flaky '
                 'checksum servers) is replayed against the real download_file with the responses '
                 'mock; non-trivial = at least one data GET. C->S: random scripts up to length 6.')
     ctx.assumptions += ['the `responses` in-process mock stands for the HTTP server',
-                        'bodies: one published-valid body and one other body']
+                        'bodies: one published-valid body; corrupted = other bytes, a truncated prefix, or an empty body']
     sfx = '' if ctx.quick else '_thorough'
     ctx.model_check('Download', 'MC_Download%s.cfg' % sfx, expect_actions=ACTIONS, workers=4,
                     note='property domain: stable checksum server')
@@ -133,7 +133,7 @@ def run(ctx):
         recs = []
         for rid in range(1, (1500 if ctx.quick else 8000) + 1):
             L = int(rng.randint(0, 7))
-            script = [['good', 'corrupt', 'e404'][int(x)] for x in rng.randint(0, 3, size=L)]
+            script = [['good', 'corrupt', 'e404', 'trunc', 'empty'][int(x)] for x in rng.randint(0, 5, size=L)]
             if rng.rand() < 0.5:
                 m = ['correct', 'wrong', 'missing'][int(rng.randint(0, 3))]
                 md5s = [m, m, m]
